@@ -12,7 +12,11 @@ import (
 	"github.com/Fantom-foundation/lachesis-base/inter/idx"
 	"github.com/Fantom-foundation/lachesis-base/inter/pos"
 	"github.com/Fantom-foundation/lachesis-base/kvdb"
+	"github.com/Fantom-foundation/lachesis-base/kvdb/memorydb"
 	"github.com/Fantom-foundation/lachesis-base/lachesis"
+	"github.com/Fantom-foundation/lachesis-base/vecfc"
+
+	"verif/ref"
 
 	"verif/sim"
 )
@@ -404,6 +408,145 @@ func (x *extras) atQuiescence() {
 	if cl.on["restartenum"] {
 		x.restartEnum()
 	}
+	if cl.on["fc"] || cl.on["clock"] {
+		x.indexReuse()
+	}
+}
+
+// indexReuse drives one vecfc.Index object directly through two lives: the current epoch's events
+// indexed in a fresh parents-first order (with rolled-back additions in between), then Reset to a
+// re-weighted validator set over an empty database and the same events indexed again in another
+// order.  Every sampled answer must match the graph definition for the weights in force.
+func (x *extras) indexReuse() {
+	cl := x.cl
+	c := cl.c
+	src := cl.firstLive()
+	if src == nil {
+		return
+	}
+	e := src.epoch()
+	ord := src.order[e]
+	if len(ord) < 2 || len(ord) > 150 {
+		return
+	}
+	er := cl.epochRef(e)
+	seed := sim.Mix(uint64(len(ord)), uint64(ord[len(ord)-1]), cl.k.vsetSeed)
+	evs := map[hash.Event]*PEvent{}
+	for _, g := range ord {
+		evs[cl.pool[g].Ev.ID()] = cl.pool[g]
+	}
+	getEvent := func(h hash.Event) dag.Event {
+		if pe, ok := evs[h]; ok {
+			return pe.Ev
+		}
+		return nil
+	}
+	var crit error
+	index := vecfc.NewIndex(func(err error) { crit = err; panic(critPanic{err}) }, vecfc.IndexConfig{Caches: vecfc.IndexCacheConfig{
+		ForklessCausePairs: cl.k.cc.fcPairs, HighestBeforeSeqSize: cl.k.cc.hbSize, LowestAfterSeqSize: cl.k.cc.laSize}})
+	_ = crit
+	life := func(life int, rv *ref.Validators, pv *pos.Validators, d *ref.DAG, lmap map[int]int) {
+		defer func() {
+			if r := recover(); r != nil {
+				if cp, ok := r.(critPanic); ok {
+					c.Violation("crit", "crit:"+critSig(cp.err.Error()), "direct index drive (life %d): %v", life, cp.err)
+				}
+				panic(r)
+			}
+		}()
+		index.Reset(pv, memorydb.New(), getEvent)
+		// parents-first permutation chosen by hash
+		done := map[int]bool{}
+		var order []int
+		for len(order) < len(ord) {
+			var ready []int
+			for _, g := range ord {
+				if done[g] {
+					continue
+				}
+				ok := true
+				for _, p := range cl.parentsG(cl.pool[g]) {
+					if !done[p] {
+						ok = false
+					}
+				}
+				if ok {
+					ready = append(ready, g)
+				}
+			}
+			g := ready[sim.Mix(seed, uint64(life), uint64(len(order)))%uint64(len(ready))]
+			done[g] = true
+			order = append(order, g)
+		}
+		for i, g := range order {
+			pe := cl.pool[g]
+			if sim.Mix(seed, uint64(life), uint64(i), 5)%4 == 0 {
+				// an addition that is rolled back must leave no trace
+				if err := index.Add(pe.Ev); err != nil {
+					c.Violation("index-add-error", "index-add-error", "direct index drive: Add(%s) = %v", cl.descEv(pe), err)
+				}
+				index.DropNotFlushed()
+				c.Count("index_rollbacks", 1)
+			}
+			if err := index.Add(pe.Ev); err != nil {
+				c.Violation("index-add-error", "index-add-error", "direct index drive: Add(%s) = %v", cl.descEv(pe), err)
+			}
+			index.Flush()
+			// queries interleaved with indexing
+			for q := 0; q < 6; q++ {
+				a := cl.pool[order[sim.Mix(seed, uint64(i), uint64(q), 1)%uint64(i+1)]]
+				b := cl.pool[order[sim.Mix(seed, uint64(i), uint64(q), 2)%uint64(i+1)]]
+				if cl.on["fc"] {
+					got := index.ForklessCause(a.Ev.ID(), b.Ev.ID())
+					want := d.ForklessCause(lmap[a.L], lmap[b.L])
+					c.Count("fc_queries", 1)
+					if got != want {
+						c.Violation("forkless-cause", "forkless-cause/direct-index", "direct index drive, life %d (weights %v): ForklessCause(A=%s, B=%s) = %v, graph definition says %v",
+							life, rv.W, cl.descEv(a), cl.descEv(b), got, want)
+					}
+				}
+				if cl.on["clock"] {
+					m := index.GetMergedHighestBefore(a.Ev.ID())
+					for ci, id := range rv.IDs {
+						ws, wf := d.HighestSeq(lmap[a.L], ci)
+						gv := m.Get(pv.GetIdx(idx.ValidatorID(id)))
+						if gv.IsForkDetected() != wf || (!wf && uint32(gv.Seq) != ws) {
+							c.Violation("merged-clock", "merged-clock/direct-index", "direct index drive, life %d: merged clock of %s for validator %d: fork=%v seq=%d, definition fork=%v seq=%d", life, cl.descEv(a), id, gv.IsForkDetected(), gv.Seq, wf, ws)
+						}
+					}
+				}
+			}
+		}
+	}
+	ident := map[int]int{}
+	for _, g := range ord {
+		ident[cl.pool[g].L] = cl.pool[g].L
+	}
+	life(1, er.RV, er.PV, er.D, ident)
+	// second life: same ids, other weights
+	ws2 := make([]uint64, len(er.ids))
+	var tot uint64
+	for i := range ws2 {
+		ws2[i] = 1 + sim.Mix(seed, uint64(i), 9)%7
+		tot += ws2[i]
+	}
+	rv2 := ref.NewValidators(er.ids, ws2)
+	b := pos.NewBuilder()
+	for i, id := range er.ids {
+		b.Set(idx.ValidatorID(id), pos.Weight(ws2[i]))
+	}
+	d2 := ref.NewDAG(rv2)
+	lmap := map[int]int{}
+	for _, g := range ord {
+		pe := cl.pool[g]
+		var ps []int
+		for _, p := range cl.parentsG(pe) {
+			ps = append(ps, lmap[cl.pool[p].L])
+		}
+		lmap[pe.L] = d2.Add(uint32(pe.Ev.Creator()), uint32(pe.Ev.Seq()), uint32(pe.Ev.Lamport()), uint32(pe.Ev.Frame()), ps).I
+	}
+	life(2, rv2, b.Build(), d2, lmap)
+	c.Probe("index_reused_after_reset")
 }
 
 func (cl *Cluster) firstLive() *Node {
